@@ -145,7 +145,18 @@ func (r *Report) Sample(v any) {
 }
 func (r *Report) H(k string) { r.Hist[k]++ }
 func (r *Report) Issue(i Issue) {
-	if len(r.Issues) < 50 {
+	r.Hist["issue:"+i.Fingerprint]++
+	// keep at most 3 instances per fingerprint so that one frequent class cannot crowd out others
+	cnt := 0
+	for _, x := range r.Issues {
+		if x.Fingerprint == i.Fingerprint {
+			cnt++
+		}
+	}
+	if cnt >= 3 {
+		return
+	}
+	if len(r.Issues) < 60 {
 		r.Issues = append(r.Issues, i)
 	}
 }
